@@ -583,6 +583,42 @@ def run(chk):
             chk.fail("stale-after-extension:SimpleProcessTensor", f"SimpleProcessTensor (rank-{rank} tensors): read and used, then one tensor replaced through set_mpo_tensor: "
                      f"the next answers differ from those of a freshly built equal object by {np.abs(second - want2).max():.2e}", info)
 
+    # ---- (b6) methods that take arguments, asked repeatedly on ONE object with one argument changed at a time (band widths, the
+    # dagger pattern, flags, times, frequencies): every answer is that of a fresh object asked the same question --------------------
+    from oqupy.bath_dynamics import TwoTimeBathCorrelations as _TTBC
+    try:
+        corr_b6 = oqupy.PowerLawSD(alpha=0.1, zeta=1, cutoff=3.0, cutoff_type="exponential", temperature=0.1)
+        pt_b6 = quiet(oqupy.pt_tempo_compute, oqupy.Bath(SZ, corr_b6), 0.0, 0.4, parameters=par, progress_type="silent")
+        mk_tb = lambda: _TTBC(oqupy.System(H), oqupy.Bath(SZ, corr_b6), pt_b6, initial_state=rho)
+        base_q = dict(freq_1=1.0, time_1=0.3, freq_2=1.3, time_2=0.2, dw=(1.0, 1.0), dagg=(1, 0), interaction_picture=False, change_only=False)
+        variants = [dict(dw=(0.5, 0.25)), dict(dw=(1.0, 0.5)), dict(dagg=(0, 1)), dict(dagg=(1, 1)), dict(interaction_picture=True), dict(change_only=True),
+                    dict(time_2=0.3), dict(freq_2=0.7), dict()]
+        head_, rest_ = variants[:3], variants[3:]
+        rng.shuffle(rest_)
+        variants = head_ + rest_             # the band widths and one dagger pattern in every run, the others sampled
+        shared_tb = mk_tb()
+        asked = [base_q] + [dict(base_q, **v_) for v_ in variants[:6 if not thorough else 9]] + [base_q]
+        for q_ in asked:
+            chk.search_cases += 1
+            got_ = complex(quiet(shared_tb.correlation, progress_type="silent", **q_))
+            want_ = complex(quiet(mk_tb().correlation, progress_type="silent", **q_))
+            if abs(got_ - want_) > 1e-9 * max(1.0, abs(want_)):
+                chk.fail("stale-answer:TwoTimeBathCorrelations.correlation", f"TwoTimeBathCorrelations.correlation asked {len(asked)} questions differing in one argument on one "
+                         f"object: the answer to {q_} is {got_:.6g}, a fresh object says {want_:.6g}", {"kind": "argument-scan", "question": {k_: str(v_) for k_, v_ in q_.items()}})
+                break
+        occ_q = [dict(freq=1.0, dw=1.0), dict(freq=1.0, dw=0.5), dict(freq=1.3, dw=0.5), dict(freq=1.0, dw=1.0, change_only=True), dict(freq=1.0, dw=1.0)]
+        for q_ in occ_q:
+            chk.search_cases += 1
+            got_ = np.array(quiet(shared_tb.occupation, progress_type="silent", **q_)[1])
+            want_ = np.array(quiet(mk_tb().occupation, progress_type="silent", **q_)[1])
+            if got_.shape != want_.shape or np.abs(got_ - want_).max() > 1e-9:
+                chk.fail("stale-answer:TwoTimeBathCorrelations.occupation", f"TwoTimeBathCorrelations.occupation on an object already asked other questions: the answer to {q_} "
+                         "differs from a fresh object's", {"kind": "argument-scan", "question": {k_: str(v_) for k_, v_ in q_.items()}})
+                break
+        chk.count("argument_scans")
+    except Exception as ex:
+        chk.fail("extended-raises", f"argument scan on TwoTimeBathCorrelations raises {ex!r}", {"kind": "argument-scan"})
+
     # ---- (c) re-using objects in several computations = fresh objects ------------------------
     for it in range(6 if thorough else 3):
         c1 = oqupy.PowerLawSD(alpha=0.1, zeta=1, cutoff=3.0, cutoff_type="exponential", temperature=0.1)
